@@ -12,6 +12,7 @@ LEAN_HELPERS = ['MV.Lemmas.Equality', 'MV.Model.Equality', 'MV.Model.Pitch', 'MV
                 'MV.Model.Types']
 DRIVERS = ['C20']
 GEN = ['Tables', 'Library', 'Dynamics']
+SRC_TIE = ['SrcTonality', 'SrcOps']   # py2lean source images of Tonality.__eq__ / Note.__eq__ proved equal to the model
 RULE = ('families of objects of one kind built from a random base by changing exactly one field (kind, value, octave, '
         'duration, mode, accidental, amplitude, tags, tempo, pedal, extension spelling / figure, tonality spelling / '
         'degree / mode / octave, chord octave, part order / name / content, chord order) plus rebuilt copies; a case is '
@@ -596,6 +597,9 @@ def correspondence(ctx):
                       'chord': ctx.n(120, 1800), 'score': ctx.n(50, 700)})
     stream_mask(ctx, {'note': ctx.n(250, 4000), 'tonality': ctx.n(150, 2400), 'chord': ctx.n(150, 2400)})
     stream_misc(ctx, ctx.n(200, 6000))
+    # kernel-level streams of the source tie (DESIGN §9.6)
+    import srctie
+    srctie.run(ctx, SRC_TIE, kernels=['teq', 'neq'])
 
 # ----------------------------------------------------------------------------- the property itself (oracle)
 # Stated on the real objects only; nothing below uses the Lean model.
